@@ -215,9 +215,9 @@ class Trace(object):
 class Session(object):
     """Lock-step session; records the trace; keeps the little state a generator needs."""
 
-    def __init__(self, build, config, leaks=True, env=None, transport=None):
+    def __init__(self, build, config, leaks=True, env=None, transport=None, link=None):
         self.config = config
-        self.d = daemon.Daemon(build, config.text(build["moddir"]), leaks=leaks, env=env, transport=transport)
+        self.d = daemon.Daemon(build, config.text(build["moddir"]), leaks=leaks, env=env, transport=transport, link=link)
         self.dead = False
         try:
             banner = self.d.start()
